@@ -175,7 +175,7 @@ ImportPlain(it, o) ==      \* no import sign: the rule passes through
     \o (IF it.supports = <<>> THEN <<>>
         ELSE <<Out([k |-> "func", v |-> KW(it, "supports")], "free", it.id)>> \o SelToks(it.supports, 1, o, 1) \o <<Out([k |-> ")"], "free", it.id)>>)
     \o PreToks(it.media, 1, o)
-    \o <<Out([k |-> "semi", v |-> ""], "free", it.id)>>
+    \o (IF it.semi THEN <<Out([k |-> "semi", v |-> ""], "free", it.id)>> ELSE <<>>)
 
 (* chain: sequence of (rewritten) at-rule heads enclosing the current items; first: position class of the item (first / afterimports / late / nested) *)
 Item(it, o, chain, first) ==
